@@ -88,6 +88,8 @@ pub fn gen_prog(rng: &mut Rng) -> Vec<u8> {
     p.extend_from_slice(&[0x3e, *rng.pick(&[144u8, 145, 146, 147, 148, 150, 153, 0, 1, 2, 5]), 0xe0, 0x45]);     // LYC
     ie |= *rng.pick(&[0x02u8, 0x02, 0x03, 0x01, 0x00]);
   }
+  // joypad: select a button group (or both / none) so that injected key presses pull an input line low; enable its interrupt
+  if rng.chance(1, 2) { p.extend_from_slice(&[0x3e, *rng.pick(&[0x10u8, 0x20, 0x00, 0x30]), 0xe0, 0x00]); if rng.chance(1, 2) { ie |= 0x10; } }
   if rng.chance(1, 4) { ie |= 0xe0; }                            // the unconnected upper bits of IE are stored, never active
   p.extend_from_slice(&[0x3e, ie, 0xe0, 0xff]);                 // IE
   // something that will wake a HALT within a line or so: the running timer, or a STAT mode-0/mode-2 interrupt
@@ -133,10 +135,22 @@ pub fn gen_prog(rng: &mut Rng) -> Vec<u8> {
   p
 }
 
-fn run_prog(name: &str, prog: &[u8], init: [u16; 4], steps: usize, w: &mut dyn Write) {
+fn button(k: usize) -> crate::devices::joypad::Button {
+  use crate::devices::joypad::Button;
+  match k { 0 => Button::A, 1 => Button::B, 2 => Button::Select, 3 => Button::Start, 4 => Button::Right, 5 => Button::Left, 6 => Button::Up, _ => Button::Down }
+}
+
+/// `evs`: key events injected between steps, (step index, press?, button 0..7) in step order
+fn run_prog(name: &str, prog: &[u8], init: [u16; 4], steps: usize, evs: &[(usize, bool, usize)], w: &mut dyn Write) {
   let mut core = setup(prog, init);
   let mut t: Vec<String> = Vec::with_capacity(steps);
-  for _ in 0..steps {
+  let mut next_ev = 0usize;
+  for k in 0..steps {
+    while next_ev < evs.len() && evs[next_ev].0 == k {
+      let (_, press, b) = evs[next_ev];
+      if press { core.memory.io.joypad.press_button(button(b)); } else { core.memory.io.joypad.release_button(button(b)); }
+      next_ev += 1;
+    }
     core.update();
     let div = core.memory.io.timer.verif_state().0 & 0xffff;
     let dma = core.memory.oam_dma.map(|d| d.verif_state().1 as u32).unwrap_or(160);
@@ -147,7 +161,8 @@ fn run_prog(name: &str, prog: &[u8], init: [u16; 4], steps: usize, w: &mut dyn W
       { core.registers.de }, { core.registers.hl }, ime_code(&core.interrupts_enabled), run_code(&core.run_state),
       core.memory.io.interrupt_flag.as_u8(), core.memory.io.video.get_lcd_status(), core.memory.io.video.get_frames_completed(), dma, oamd));
   }
-  writeln!(w, "{} prog={} init={},{},{},{} steps={} | t={}", name, hex(prog), init[0], init[1], init[2], init[3], steps, t.join(";")).unwrap();
+  let es: Vec<String> = evs.iter().map(|(k, p, b)| format!("{}:{}:{}", k, if *p { 1 } else { 0 }, b)).collect();
+  writeln!(w, "{} prog={} init={},{},{},{} steps={} ev={} | t={}", name, hex(prog), init[0], init[1], init[2], init[3], steps, es.join(","), t.join(";")).unwrap();
 }
 
 fn frame_program(n0: usize, n1: usize, lcd_off: bool) -> Vec<u8> {
@@ -221,7 +236,10 @@ pub fn run(sub: &str, opts: &Opts, w: &mut dyn Write) {
       let iv: Vec<u16> = field(line, "init").split(',').map(|x| x.parse::<u16>().unwrap_or(0)).collect();
       let init = [iv.get(0).copied().unwrap_or(0), iv.get(1).copied().unwrap_or(0), iv.get(2).copied().unwrap_or(0), iv.get(3).copied().unwrap_or(0)];
       let steps = field(line, "steps").parse::<usize>().unwrap_or(0);
-      run_prog(if sub == "blocks" { "c09.blocks" } else { "c09" }, &prog, init, steps, w);
+      let evs: Vec<(usize, bool, usize)> = field(line, "ev").split(',').filter(|x| !x.is_empty()).map(|e| {
+        let v: Vec<usize> = e.split(':').map(|x| x.parse::<usize>().unwrap_or(0)).collect();
+        (v.get(0).copied().unwrap_or(0), v.get(1).copied().unwrap_or(0) == 1, v.get(2).copied().unwrap_or(0)) }).collect();
+      run_prog(if sub == "blocks" { "c09.blocks" } else { "c09" }, &prog, init, steps, &evs, w);
     }
     return;
   }
@@ -246,7 +264,15 @@ pub fn run(sub: &str, opts: &Opts, w: &mut dyn Write) {
   for i in 0..nprog {
     let prog = gen_prog(&mut rng);
     let init = [rng.u16() & 0xfff0, rng.u16(), rng.u16(), 0u16];
+    // key events: a few presses / releases at random steps (ascending)
+    let mut evs: Vec<(usize, bool, usize)> = Vec::new();
+    if rng.chance(1, 2) {
+      let n = 1 + rng.below(8) as usize;
+      let mut ks: Vec<usize> = (0..n).map(|_| rng.below(steps as u64) as usize).collect();
+      ks.sort();
+      for k in ks { evs.push((k, rng.chance(2, 3), rng.below(8) as usize)); }
+    }
     if i % nshards != shard { continue; }
-    run_prog(name, &prog, init, steps, w);
+    run_prog(name, &prog, init, steps, &evs, w);
   }
 }
